@@ -438,7 +438,9 @@ def _progress(ctx, names):
                 if consumed:
                     continue
                 trail = " > ".join(ai.witness.get(((e, k, (), ()), (rav, consumed)), ())[:8])
-                if rav is None or rav[0] != "v":
+                if rav == "!":
+                    bad.append("%s: panics before consuming a token (%s)" % (k, trail))
+                elif rav is None or rav[0] != "v":
                     bad.append("%s: result not determined (%s)" % (k, trail))
                 elif rav[1] == 0:
                     bad.append("%s: returns Ok without consuming a token (%s)" % (k, trail))
@@ -494,6 +496,89 @@ def _progress(ctx, names):
     ctx.notes.append("progress interpreter: %d (routine, kind, context) summaries, %d loop explorations, %d states; contexts fixpoint in %d rounds" % (
         len(ai.memo), n_runs, ai.n_explored, rounds))
     ctx._c09_ai = (ai, F, pf, contexts)
+
+    # R9.9 a routine that panics for some next-terminal kinds (an `unreachable!()` arm of a dispatch on the kind, an
+    # unwrap of a None that the kind decides) is only entered with the other kinds
+    tkf = F.find1("cairo_lang_parser::lexer::", name="token_kind_to_terminal_syntax_kind")
+    LK = sorted({st[2][4] for _, _, st in tkf.stmts() if st[0] == "a" and st[2][0] == "agg" and st[2][1] == "adt"
+                 and st[2][2].endswith("kind::SyntaxKind")})
+    ctx.floor("terminal kinds the lexer can produce", len(LK), 70)
+    ppf = {p: f for p, f in pf.items() if p.startswith(PARSER)}
+    callers = defaultdict(set)
+    for p, f in ppf.items():
+        for c in f.calls():
+            if c.path in ppf:
+                callers[c.path].add(p)
+    cand = [p for p, f in ppf.items() if any((c.target is None and A.is_panic_call(c)) or c.name() in ("unwrap", "expect") for c in f.calls())]
+    ctx.floor("parser routines with an explicit panic, unwrap or expect", len(cand), 8)
+    P = {}
+    work = deque(sorted(cand))
+    while work:
+        g = work.popleft()
+        if g in P or last_seg(g) == "take":
+            continue
+        ks = set()
+        for cx in contexts[g]:
+            for k in LK:
+                if ("!", False) in ai.outcomes(g, k, cx[0], cx[1]):
+                    ks.add(k)
+        P[g] = ks
+        if ks:
+            for q in callers[g]:
+                if q not in P:
+                    work.append(q)
+    panicking = {g: ks for g, ks in P.items() if ks}
+    consumes = {}
+
+    def may_consume(f, c):
+        """Can the call move the token window?  (`&mut Parser` receiver and, for routines of the parser, a summary
+        that consumes for some kind and context)"""
+        if c.callee.get("r") == "ptr":
+            return True
+        if not any(op_local(a) is not None and (f.local_ty(op_local(a)) or "").startswith("&mut " + PARSER) for a in c.args):
+            return False
+        g = c.path
+        if g not in pf:
+            return True
+        if g not in consumes:
+            consumes[g] = any(cons for cx in contexts[g] for k in LK for _, cons in ai.outcomes(g, k, cx[0], cx[1]))
+        return consumes[g]
+    roots = [q for q in ppf if last_seg(q) in ("parse_syntax_file", "parse_file_expr", "parse_token_stream", "parse_token_stream_expr", "parse_file_statement_list",
+                                                "parse_file")]
+    for q in sorted(roots):
+        ks = P.get(q)
+        if ks is None:
+            ks = set(k for cx in contexts[q] for k in LK if ("!", False) in ai.outcomes(q, k, cx[0], cx[1]))
+        ctx.ob("R9.9", "entry:%s" % fn_key(q), not ks, "the entry point does not panic on its first terminal, whatever its kind" if not ks else
+               "the entry point panics when the first terminal is %s" % sorted(ks)[:5], ppf[q].where())
+    n_sites = 0
+    for g, ks in sorted(panicking.items()):
+        ctx.analysed(ppf[g])
+        for q in sorted(callers[g]):
+            f = ppf[q]
+            # the call sites in q are safe if q entered with any kind never reaches the panic on its unchanged prefix
+            # (then P[q] is empty) and if no point after a consumption, and no loop head, reaches it either
+            starts = set()
+            for c in f.calls():
+                if c.target is not None and may_consume(f, c):
+                    starts.add(c.target)
+            loops = natural_loops(f)
+            starts |= set(loops.keys() if isinstance(loops, dict) else [h for h, _ in loops])
+            bad = {}
+            for cx in contexts[q]:
+                for k in LK:
+                    if ("!", False) in ai.outcomes(q, k, cx[0], cx[1]):
+                        continue          # q itself panics on k from its entry: its own callers are checked in turn
+                    for bb in sorted(starts):
+                        if ("!", False) in ai.from_block(f, bb, k, cx[0], cx[1]):
+                            bad.setdefault(k, A._line(f, bb))
+            n_sites += 1
+            ctx.ob("R9.9", "guarded:%s<-%s" % (fn_key(g).split("::")[-1], fn_key(q)), not bad,
+                   "%s panics when entered with %d of the %d kinds (e.g. %s); in %s it is reached only with the other kinds, from the entry, after every consuming call and from every loop head" % (
+                       last_seg(g), len(ks), len(LK), sorted(ks)[:2], last_seg(q)) if not bad else
+                   "%s panics on %s and is reached with that kind in %s (from line %s)" % (last_seg(g), sorted(bad)[:4], last_seg(q), sorted(bad.values())[0]), f.where())
+    ctx.floor("call relations into routines that panic for some kinds", n_sites, 3)
+    ctx.notes.append("R9.9: routines that panic for some kinds on an unchanged look-ahead: %s" % {last_seg(g): len(ks) for g, ks in panicking.items()})
 
     # R9.7 / R9.8 the same interpreter over the lexer: the look-ahead is the next character
     lai = A.LexerAI(F, names)
